@@ -829,6 +829,23 @@ func configure(g *gen) {
 		add(FnSpec{Pkg: "pkg/binding", Func: n, Lean: "binding" + n, Extra: []string{"(autoErr : Bool)"}, Types: bTypes,
 			Exts: []Ext{{Callee: "Auto", Value: "autoErr", T: bErr}}})
 	}
+	// context_binding.go: the Context methods are the binding-package calls on `c.Req` (the request as it is: which
+	// request a binder is given is what is recorded).  `bindWith b req` = does binder b report an error for that request
+	// (binders by identity; Form, JSON, XML of the package are 0, 1, 2), `auto req` the same for binding.Auto
+	cbT := map[string]T{"any": {"opaque", "Unit"}, "binding.Binder": {"opaque", "Nat"}}
+	cbExtra := []string{"(bindWith : Nat → Option Nat → Bool)", "(auto : Option Nat → Bool)", "(validate : Bool)"}
+	cbExts := []Ext{
+		{Callee: "binder.Bind", Value: "(bindWith binder %1)", T: bErr},
+		{Callee: "binding.Form.Bind", Value: "(bindWith 0 %1)", T: bErr},
+		{Callee: "binding.JSON.Bind", Value: "(bindWith 1 %1)", T: bErr},
+		{Callee: "binding.XML.Bind", Value: "(bindWith 2 %1)", T: bErr},
+		{Callee: "binding.Auto", Value: "(auto %1)", T: bErr},
+		{Callee: "binding.Validate", Value: "validate", T: bErr},
+		{Callee: "goutil.PanicErr", Stmts: []string{"if %1 then throw Panic.value"}, MayPanic: true},
+	}
+	for _, n := range []string{"ShouldBind", "MustBind", "AutoBind", "Bind", "Validate", "BindForm", "BindJSON", "BindXML"} {
+		add(FnSpec{Recv: "Context", Func: n, Lean: "Ctx." + n, Extra: cbExtra, Types: cbT, Exts: cbExts})
+	}
 	breq := T{"opaque", "GoRt.BReq"}
 	bsrc := func(name string) []string { return []string{"src := GoRt.BindSrc." + name} }
 	add(FnSpec{Pkg: "pkg/binding", Func: "Auto", Lean: "bindingAuto",
